@@ -79,12 +79,12 @@ def thr(callers, stop=-1, epi=(('shut', 0), ('close', 0))):
     return {'callers': [list(c) for c in callers], 'stop': stop, 'epi': [list(e) for e in epi]}
 
 
-def mk(threads, invs, sched=(), plain=None, cache='dict', none=0):
+def mk(threads, invs, sched=(), plain=None, cache='dict', none=0, aw=0):
     # plain: the default-dict re-run is comparable exactly when the schedule is the non-preemptive default
     if plain is None:
         plain = 0 if list(sched) else 1
     return {'thr': threads, 'invs': [list(i) for i in invs], 'sched': list(sched), 'plain': plain, 'cache': cache,
-            'none': none}
+            'none': none, 'aw': aw}
 
 
 FULL = (('shut', 0), ('close', 0))
@@ -132,6 +132,8 @@ def scenarios():
     out.append(mk([thr([[0, 0, -1], [0, 1, -1], [0, 9, -1]]), thr([[0, 2, -1], [0, 12, -1]])], [[5, 1], [5, 1], [5, 1]], none=1))
     out.append(mk([thr([[0, 0, -1], [1, 0, -1]]), thr([[1, 4, -1], [0, 4, -1]])], [[-1, 1], [0, 1], [2, 1], [2, 1]], none=1,
                   cache='map'))
+    # the wrapped function returns a reusable awaitable object: cached like any other value (C01-m10)
+    out.append(mk([thr([[0, 0, -1], [0, 1, -1], [0, 9, -1]]), thr([[0, 2, -1], [0, 12, -1]])], [[5, 1], [5, 1], [5, 1]], aw=1))
     # two keys, zero-duration computations
     out.append(mk([thr([[0, 0, -1], [1, 0, -1]]), thr([[1, 0, -1], [0, 0, -1]])],
                   [[-1, 1], [0, 1], [0, 0], [-1, 1]], [0, 1] * 30))
@@ -229,6 +231,7 @@ def exhaustive_bases(tier):
     # 2 threads x (1+1) callers
     bases.append(mk([thr([[0, 0, -1], [0, 0, -1]]), thr([[0, 0, -1], [0, 0, -1]])], [[1, 1], [1, 1]]))
     bases.append(mk([thr([[0, 0, -1]]), thr([[0, 0, -1]])], [[0, 1], [0, 1]], none=1))
+    bases.append(mk([thr([[0, 0, -1]]), thr([[0, 0, -1]])], [[0, 1], [0, 1]], aw=1))
     bases.append(mk([thr([[0, 0, -1], [0, 0, -1]]), thr([[0, 0, -1], [0, 0, -1]])], [[0, 0], [1, 1], [1, 1]]))
     return bases
 
@@ -308,7 +311,7 @@ def rand_case(rnd, big=False):
     if r < 0.12:
         sched = []                       # non-preemptive default schedule: compared with the default-dict run
     return mk(threads, invs, sched, cache='map' if rnd.random() < 0.25 else 'dict',
-              none=1 if rnd.random() < 0.15 else 0)
+              none=1 if rnd.random() < 0.15 else 0, aw=1 if rnd.random() < 0.12 else 0)
 
 
 def gen_random(tier, seed, n_quick=2400, n_thorough=30000):
@@ -384,7 +387,7 @@ def shrink_candidates(case):
 
 def distribution(cases, obs):
     d = dict(threads={}, callers={}, keys={}, events=0, proxies=0, cancels=0, failures=0, loop_stops_pending=0,
-             timeouts_60s=0, ends={}, default_dict_reruns=0, default_dict_same=0, mutablemapping_cache=0, returns_none=0,
+             timeouts_60s=0, ends={}, default_dict_reruns=0, default_dict_same=0, mutablemapping_cache=0, returns_none=0, returns_awaitable=0,
              sync_raises=0, longer_than_60s=0)
     for c, o in zip(cases, obs):
         if not isinstance(o, dict) or 'tr' not in o:
@@ -401,6 +404,7 @@ def distribution(cases, obs):
             d['default_dict_same'] += 1 if o.get('plain_same') else 0
         d['mutablemapping_cache'] += 1 if c.get('cache') == 'map' else 0
         d['returns_none'] += 1 if c.get('none') else 0
+        d['returns_awaitable'] += 1 if c.get('aw') else 0
         d['sync_raises'] += sum(1 for (dur, _) in c['invs'] if dur == -2)
         d['longer_than_60s'] += sum(1 for (dur, _) in c['invs'] if dur > SAFETY)
         d['events'] += len(tr)
